@@ -1,5 +1,6 @@
 """C06 — hostile repository data cannot make the tool touch files outside its directories."""
 import os
+import zlib
 import random
 from pathlib import PurePosixPath
 
@@ -141,12 +142,16 @@ def run_one(chk, sseed, directed=None):
         for comp, cp in cs["components"].items():
             for arch, pkgs in cp.get("binaries", {}).items():
                 for shape, nm in hostile_names(rng, w.sb, url, cn, rng.randint(0, 2)):
-                    size = rng.randint(1, 9)
+                    rng.randint(1, 9)
+                    # S1: the size of a pool file is a function of its path - a traversal string aimed at a place inside the
+                    # repository's own directory is a harmless, valid file name, and two indices may both list it
+                    size = 1 + zlib.crc32(os.path.normpath(nm).encode()) % 9
                     pkgs.append({"name": f"evil{len(kinds)}", "version": "1", "size": size, "filename": nm})
                     kinds.append(("filename", shape))
             if cp.get("sources") is not None:
                 for shape, nm in hostile_names(rng, w.sb, url, cn, rng.randint(0, 2)):
-                    size = rng.randint(1, 9)
+                    rng.randint(1, 9)
+                    size = 1 + zlib.crc32(os.path.normpath(nm).encode()) % 9   # (S1, as above)
                     if rng.random() < 0.5:
                         cp["sources"].append({"name": f"evs{len(kinds)}", "version": "1", "directory": nm, "files": [("f.dsc", size)]})
                         kinds.append(("directory", shape))
